@@ -19,6 +19,9 @@
     queue on behalf of operation [owner]; [VExec], [VSubscribe], [VStop] …: resolver / Stop()
     calls); [fin p ls] the final state.  Operation n is the one started by label number n.
 
+    Stage 3 (section J) joins the two: one interleaved system with the data of stage 1, proved to
+    be a restriction of stage 2 and to project, owner by owner, to stage 1's sequential trace.
+
     Stage 1 (sections A–H) is the sequential semantics of the dispatcher (both handleMessage
     functions and graphqlWSHandler); "sent" means handed to sendMessage.  Stage 2 (section I) is the
     interleaved semantics of read loop, write loop, subscription goroutines and closers with the
@@ -35,7 +38,7 @@
     (I: every actor terminates); on the real runtime it is observed by the correspondence check
     (goroutine profile after every conversation), not proved. *)
 From Coq Require Import List NArith ZArith Bool String.
-From ApiFu Require Import Ws.WsTypes Ws.WsSpec Ws.WsModel Ws.WsProofs Ws.WsTheorems Ws.WsActors Ws.WsActorsProofs.
+From ApiFu Require Import Ws.WsTypes Ws.WsSpec Ws.WsModel Ws.WsProofs Ws.WsTheorems Ws.WsActors Ws.WsActorsProofs Ws.WsSys Ws.WsSysProofs.
 Import ListNotations.
 Open Scope list_scope.
 
@@ -192,6 +195,56 @@ Theorem C08_ws_quiescent_refuted_before_fix_goroutine :
             (forall l, internal l = true -> astep 1 false c l = None) /\ all_gone c = false.
 Proof. exact quiescent_refuted_before_fix_goroutine. Qed.
 
+(** ** J. stage 3: the two models joined (Ws/WsSys.v) *)
+(** One transition system: the actors of stage 2 carrying the dispatcher and the table of sources of
+    stage 1.  The read loop takes real client frames ([YFrame f]): what [handleMessage] decides (and
+    its Stop() / go func() effects) happens when the frame is taken, the frames it sends become the
+    read loop's program and go through the bounded queue one blocking send at a time; a goroutine takes
+    an event ([YEmit]), sends the data frame later, notices the end of its source ([IGEnd]) or its
+    cancellation, sends its complete later; [y_hist] lists the labels in the order of these commit
+    points.  [y_rcalls] / [y_gcalls]: frames handed to sendMessage so far by the read loop / by each
+    goroutine.
+
+    (J1) Every run of the joined system is a run of stage 2 on its configuration: the joined system only
+    restricts stage 2 (to the programs handleMessage really runs) and adds bookkeeping. *)
+Theorem C08_sys_runs_are_stage2_runs : forall cap p ls y y',
+  yrun cap p y ls = Some y' -> arun cap true (y_c y) (erase_run cap p y ls) = Some (y_c y').
+Proof. exact yrun_erases. Qed.
+
+(** (J2) … and projects to the sequential trace of stage 1, owner by owner.  In every reachable state,
+    with ls the labels committed so far: the dispatcher is in stage 1's state [fin p ls]; goroutine i
+    serves the i-th source x of that state, the application's Stop() has been called on its stream
+    exactly as often as stage 1 says, and what it has handed to sendMessage plus what it still has in
+    hand (the data frame of an event taken, the complete it owes) is exactly [owned (s_op x) (tr p ls)];
+    for every owner without a source (None = connection-level frames; queries, mutations, failed
+    subscribes) what the read loop has handed to sendMessage plus its remaining program (plus what an
+    early return after a failed ack / ka send dropped — only once the write loop has exited) is
+    exactly what [tr p ls] attributes to that owner; HandleClose has run iff stage 1 is closed.
+    Hence every theorem of sections A-H about [tr p ls] and [fin p ls] speaks about the interleaved
+    system: per owner, the frames sent are a prefix of stage 1's, the remainder being in hand. *)
+Theorem C08_sys_refines : forall cap p y, yreach cap p y ->
+  y_s y = fin p (y_hist y) /\ reachable cap true (y_c y) /\ finished (y_c y) = closed (fin p (y_hist y)) /\
+  List.length (gs (y_c y)) = List.length (srcs (fin p (y_hist y))) /\
+  List.length (y_gcalls y) = List.length (srcs (fin p (y_hist y))) /\
+  (forall i g x cl, nth_error (gs (y_c y)) i = Some g -> nth_error (srcs (fin p (y_hist y))) i = Some x ->
+                    nth_error (y_gcalls y) i = Some cl ->
+     g_stops g = s_stops x /\ cl ++ gor_pending g x = owned (s_op x) (tr p (y_hist y))) /\
+  (forall ow, is_src_op (srcs (fin p (y_hist y))) ow = false ->
+     osends_to ow (y_rcalls y ++ y_rprog y ++ y_lost y) = sent_to ow (tr p (y_hist y))) /\
+  (y_lost y = [] \/ writer_done (y_c y) = true).
+Proof. exact sys_refines. Qed.
+
+(** (J3) the joined system can take every internal step stage 2 can (the bookkeeping never blocks), so
+    (I) carries over: from every reachable state on its way out every run of internal steps is
+    bounded and can only stop where every actor has terminated, HandleClose has run, the connection is
+    deregistered and every stream has been stopped exactly once *)
+Theorem C08_sys_quiescent : forall cap p, 1 <= cap -> forall y,
+  yreach cap p y -> ending (y_c y) = true ->
+  forall ls y', Forall (fun a => internal a = true) ls -> yrun cap p y (map YInt ls) = Some y' ->
+    List.length ls <= mu (y_c y) /\
+    ((forall a, internal a = true -> ystep cap p y' (YInt a) = None) -> all_gone (y_c y') = true /\ cleaned (y_c y')).
+Proof. exact sys_quiescent. Qed.
+
 Print Assumptions C08_ws_ack_first.
 Print Assumptions C08_ws_no_exec_before_init.
 Print Assumptions C08_ws_nothing_without_init.
@@ -216,3 +269,6 @@ Print Assumptions C08_ws_quiescent_run_exists.
 Print Assumptions C08_ws_actors_stop_at_most_once.
 Print Assumptions C08_ws_quiescent_refuted_before_fix_reader.
 Print Assumptions C08_ws_quiescent_refuted_before_fix_goroutine.
+Print Assumptions C08_sys_runs_are_stage2_runs.
+Print Assumptions C08_sys_refines.
+Print Assumptions C08_sys_quiescent.
